@@ -1,7 +1,7 @@
 (** Consequences of the invariants for the outcome of [run] (C01, C02): the outcome is a function
     of the family partition and the chop totals only. *)
 From Coq Require Import List Bool Arith Lia.
-From CB Require Import Model.Propagate Proofs.PropagateBasics Proofs.PropagateTerm Proofs.PropagateInv Proofs.PropagateInit.
+From CB Require Import Model.Propagate Proofs.PropagateBasics Proofs.PropagateTerm Proofs.PropagateInv Proofs.PropagateInit Proofs.PropagateShort.
 Import ListNotations.
 Set Default Proof Using "Type".
 
@@ -47,11 +47,17 @@ Section Final.
   Qed.
 
   (** ** counts are constant on a family under the consistency check *)
-  Lemma consistent_axis s x : consistent bs s = true -> va x ->
+  Lemma consistent_cc s : consistent bs s = true -> consistent_counts bs s = true.
+  Proof. unfold consistent. intro H. apply andb_true_iff in H. apply H. Qed.
+
+  Lemma consistent_ga s : consistent bs s = true -> gradings_agree bs s = true.
+  Proof. unfold consistent. intro H. apply andb_true_iff in H. apply H. Qed.
+
+  Lemma consistent_axis s x : consistent_counts bs s = true -> va x ->
     (forall w, In w (wires_of_axis x) -> wcount s w = wcount s (fst x, snd x, 0)) /\
     (forall w c, In w (wires_of_axis x) -> vw c -> coincident w c = true -> wcount s c = wcount s w).
   Proof.
-    intros C Vx. unfold consistent in C. rewrite forallb_forall in C. specialize (C x Vx).
+    intros C Vx. unfold consistent_counts in C. rewrite forallb_forall in C. specialize (C x Vx).
     unfold axis_consistent in C. apply andb_true_iff in C. destruct C as [C1 C2].
     rewrite forallb_forall in C1, C2. split.
     - intros w Hw. apply Nat.eqb_eq. apply C1. exact Hw.
@@ -59,7 +65,7 @@ Section Final.
       apply in_coin_set. auto.
   Qed.
 
-  Lemma consistent_fam s x y : consistent bs s = true -> va x -> fam x y ->
+  Lemma consistent_fam s x y : consistent_counts bs s = true -> va x -> fam x y ->
     wcount s (fst y, snd y, 0) = wcount s (fst x, snd x, 0).
   Proof.
     intros C Vx F. induction F as [x | x y z F IH Vz N]; [reflexivity|].
@@ -105,6 +111,33 @@ Section Final.
       specialize (O (w_axis w)). assert (In (w_axis w) (axes_of_block (fst (w_axis w)))) as X by (apply in_axes_of_block; auto).
       specialize (O X). unfold a_defined in O. rewrite forallb_forall in O.
       apply w_defined_iff. apply O. apply in_wires_of_axis. auto.
+    Qed.
+
+    Lemma final_short : single_section bs ->
+      match propagate (fuel0 bs) start (seq 0 n) with
+      | Done s' => Short bs s'
+      | Stuck s' _ => Short bs s'
+      | OutOfFuel => True
+      end.
+    Proof using Hco Hnb.
+      intro SS. apply propagate_short; auto.
+      - intros i Hi. apply in_seq in Hi. lia.
+      - apply grade_blocks_good. exact Hco.
+      - apply grade_blocks_short; auto.
+    Qed.
+
+    (** one-section gradings: the section-list comparison adds nothing to the count comparison *)
+    Lemma short_agree s : Short bs s -> Outside bs s [] -> consistent_counts bs s = true -> gradings_agree bs s = true.
+    Proof.
+      intros [Sg _] O C. unfold gradings_agree. apply forallb_forall. intros x Vx.
+      unfold axis_agree. apply forallb_forall. intros w Hw. apply forallb_forall. intros c Hc.
+      pose proof (vw_of_axis bs x w Vx Hw) as Vw.
+      apply in_coin_set in Hc. destruct Hc as [Vc Cc].
+      destruct (consistent_axis s x C Vx) as [_ X]. specialize (X w c Hw Vc Cc).
+      destruct (short_list_eq (g s w) (g s c) (Sg w Vw) (Sg c Vc)
+                  (outside_all_defined s w O Vw) (outside_all_defined s c O Vc)) as [E1 E2].
+      { unfold wcount in X. symmetry. exact X. }
+      destruct (aligned bs c w); assumption.
     Qed.
 
     (** Done: every family holds a chopped axis *)
@@ -250,7 +283,7 @@ Section Final.
     Qed.
 
     (** written count = count of every wire of the axis = total of ANY chopped axis of the family *)
-    Lemma done_counts s : Good s -> consistent bs s = true ->
+    Lemma done_counts s : Good s -> consistent_counts bs s = true ->
       forall x, va x ->
         (forall w, In w (wires_of_axis x) -> wcount s w = written bs s x) /\
         (forall c, va c -> chopped c = true -> fam c x -> written bs s x = total (user_chops c)).
@@ -270,6 +303,7 @@ Section Final.
       intros (c & c' & Vc & Vc' & Cc & Cc' & F & Ne) cs ws. rewrite run_unfold. pose proof final_inv as FI.
       destruct (propagate (fuel0 bs) start (seq 0 n)) as [s | s undef |]; try discriminate.
       destruct FI as [GS O]. destruct (consistent bs s) eqn:C; [|discriminate]. exfalso. apply Ne.
+      apply consistent_cc in C.
       destruct (done_counts s GS C c' Vc') as [_ X].
       rewrite <- (X c Vc Cc F). rewrite <- (X c' Vc' Cc' (fam_refl bs c')). reflexivity.
     Qed.
@@ -286,24 +320,48 @@ Section Final.
       eapply fam_trans; [exact F1|]. apply fam_sym; auto.
     Qed.
 
-    Theorem no_conflict_ok : all_families_chopped -> ~ conflict -> exists cs ws, run bs o_coin o_nbrs = Ok cs ws.
+    Lemma no_conflict_cc s : Good s -> Outside bs s [] -> all_families_chopped -> ~ conflict -> consistent_counts bs s = true.
+    Proof.
+      intros GS O AF NC.
+      unfold consistent_counts. apply forallb_forall. intros x Vx. unfold axis_consistent.
+      destruct (AF x Vx) as (c & Vc & Cc & F).
+      assert (forall w, In w (wires_of_axis x) -> wcount s w = total (user_chops c)) as X.
+      { intros w Hw. apply (no_conflict_wcount s GS O NC w c (vw_of_axis bs x w Vx Hw) Vc Cc).
+        apply in_wires_of_axis in Hw. destruct Hw as [Hw _]. rewrite Hw. exact F. }
+      apply andb_true_iff. split; apply forallb_forall.
+      + intros w Hw. apply Nat.eqb_eq. rewrite (X w Hw), (X _ (wire0_in x)). reflexivity.
+      + intros w Hw. apply forallb_forall. intros c0 Hc0. apply Nat.eqb_eq. rewrite (X w Hw).
+        apply in_coin_set in Hc0. destruct Hc0 as [V0 C0].
+        apply (no_conflict_wcount s GS O NC c0 c V0 Vc Cc).
+        eapply fam_step; [exact F | apply vw_axis; exact V0 |].
+        pose proof Hw as Hw'. apply in_wires_of_axis in Hw'. destruct Hw' as [Ew Hk]. rewrite <- Ew.
+        apply is_nbr_intro; auto. apply vw_axis in V0. apply V0.
+    Qed.
+
+    (** every family chopped, no conflicting totals, one-section chops: writing succeeds *)
+    Theorem no_conflict_ok : single_section bs -> all_families_chopped -> ~ conflict -> exists cs ws, run bs o_coin o_nbrs = Ok cs ws.
     Proof using Hco Hnb Hnb' ND Hok.
-      intros AF NC. destruct run_done_or_undefined as [(s & P & GS & O) | U].
+      intros SS AF NC. destruct run_done_or_undefined as [(s & P & GS & O) | U].
       - rewrite run_unfold, P.
         assert (consistent bs s = true) as C; [|rewrite C; eauto].
-        unfold consistent. apply forallb_forall. intros x Vx. unfold axis_consistent.
-        destruct (AF x Vx) as (c & Vc & Cc & F).
-        assert (forall w, In w (wires_of_axis x) -> wcount s w = total (user_chops c)) as X.
-        { intros w Hw. apply (no_conflict_wcount s GS O NC w c (vw_of_axis bs x w Vx Hw) Vc Cc).
-          apply in_wires_of_axis in Hw. destruct Hw as [Hw _]. rewrite Hw. exact F. }
-        apply andb_true_iff. split; apply forallb_forall.
-        + intros w Hw. apply Nat.eqb_eq. rewrite (X w Hw), (X _ (wire0_in x)). reflexivity.
-        + intros w Hw. apply forallb_forall. intros c0 Hc0. apply Nat.eqb_eq. rewrite (X w Hw).
-          apply in_coin_set in Hc0. destruct Hc0 as [V0 C0].
-          apply (no_conflict_wcount s GS O NC c0 c V0 Vc Cc).
-          eapply fam_step; [exact F | apply vw_axis; exact V0 |].
-          pose proof Hw as Hw'. apply in_wires_of_axis in Hw'. destruct Hw' as [Ew Hk]. rewrite <- Ew.
-          apply is_nbr_intro; auto. apply vw_axis in V0. apply V0.
+        pose proof (final_short SS) as FS. rewrite P in FS.
+        pose proof (no_conflict_cc s GS O AF NC) as CC.
+        unfold consistent. rewrite CC, (short_agree s FS O CC). reflexivity.
+      - exfalso. apply run_undefined_iff in U. destruct U as (x & Vx & Hx).
+        destruct (AF x Vx) as (c & Vc & Cc & F). eapply Hx; eauto.
+    Qed.
+
+    (** in general (sections of any number): the count check passes; the outcome is [Ok] exactly when
+        in addition the section lists of coincident wires agree *)
+    Theorem no_conflict_counts : all_families_chopped -> ~ conflict ->
+      exists s, propagate (fuel0 bs) start (seq 0 n) = Done s /\ consistent_counts bs s = true /\
+                (gradings_agree bs s = true -> exists cs ws, run bs o_coin o_nbrs = Ok cs ws) /\
+                (gradings_agree bs s = false -> run bs o_coin o_nbrs = Inconsistent).
+    Proof using Hco Hnb Hnb' ND Hok.
+      intros AF NC. destruct run_done_or_undefined as [(s & P & GS & O) | U].
+      - exists s. pose proof (no_conflict_cc s GS O AF NC) as CC. repeat split; auto.
+        + intro GA. rewrite run_unfold, P. unfold consistent. rewrite CC, GA. simpl. eauto.
+        + intro GA. rewrite run_unfold, P. unfold consistent. rewrite CC, GA. reflexivity.
       - exfalso. apply run_undefined_iff in U. destruct U as (x & Vx & Hx).
         destruct (AF x Vx) as (c & Vc & Cc & F). eapply Hx; eauto.
     Qed.
@@ -371,9 +429,9 @@ Section Indep2.
   Qed.
 
   Lemma consistent_ext s s' :
-    (forall w, In w (all_wires n) -> wcount s w = wcount s' w) -> consistent bs s = consistent bs s'.
+    (forall w, In w (all_wires n) -> wcount s w = wcount s' w) -> consistent_counts bs s = consistent_counts bs s'.
   Proof.
-    intro H. unfold consistent. apply forallb_ext_in. intros x Vx. unfold axis_consistent.
+    intro H. unfold consistent_counts. apply forallb_ext_in. intros x Vx. unfold axis_consistent.
     assert (forall w, In w (wires_of_axis x) -> In w (all_wires n)) as V by (intros w Hw; eapply vw_of_axis; eauto).
     f_equal.
     - apply forallb_ext_in. intros w Hw. rewrite (H w (V w Hw)), (H _ (V _ (wire0_in x))). reflexivity.
@@ -383,7 +441,7 @@ Section Indep2.
 
   (** the wire counts of a consistent final state are forced on any other final state *)
   Lemma forced_counts s1 s2 :
-    Good bs s1 -> consistent bs s1 = true -> Good bs s2 -> Outside bs s2 [] ->
+    Good bs s1 -> consistent_counts bs s1 = true -> Good bs s2 -> Outside bs s2 [] ->
     forall w, In w (all_wires n) -> wcount s2 w = wcount s1 w.
   Proof.
     intros G1' C1 G2' O2 w Vw.
@@ -393,10 +451,18 @@ Section Indep2.
     rewrite (X1 w) by (apply in_wires_of_axis; auto). rewrite (X2 c Vc Cc F). exact T.
   Qed.
 
-  Theorem run_oracle_independent o1 n1 o2 n2 :
+  (** one-section gradings: the full check is the count check *)
+  Lemma consistent_short s :
+    Short bs s -> Outside bs s [] -> consistent bs s = consistent_counts bs s.
+  Proof.
+    intros SS O. unfold consistent. destruct (consistent_counts bs s) eqn:C; [|reflexivity].
+    rewrite (short_agree bs s SS O C). reflexivity.
+  Qed.
+
+  Theorem run_oracle_independent o1 n1 o2 n2 : single_section bs ->
     oracle_ok bs o1 n1 = true -> oracle_ok bs o2 n2 = true -> run bs o1 n1 = run bs o2 n2.
   Proof using ND.
-    intros K1 K2.
+    intros SS K1 K2.
     destruct (oracle_ok_incl bs o1 n1 K1) as (A1 & B1 & B1').
     destruct (oracle_ok_incl bs o2 n2 K2) as (A2 & B2 & B2').
     pose proof (run_undefined_iff bs o1 n1 A1 B1 B1' ND K1) as U1.
@@ -404,9 +470,12 @@ Section Indep2.
     destruct (run_done_or_undefined bs o1 n1 A1 B1 K1) as [(s1 & P1 & G1' & O1) | R1];
     destruct (run_done_or_undefined bs o2 n2 A2 B2 K2) as [(s2 & P2 & G2' & O2) | R2].
     - rewrite (run_unfold bs o1 n1 K1), (run_unfold bs o2 n2 K2), P1, P2.
-      assert (consistent bs s1 = true -> forall w, In w (all_wires n) -> wcount s2 w = wcount s1 w) as F12
+      pose proof (final_short bs o1 n1 A1 B1 SS) as S1. rewrite P1 in S1.
+      pose proof (final_short bs o2 n2 A2 B2 SS) as S2. rewrite P2 in S2.
+      rewrite (consistent_short s1 S1 O1), (consistent_short s2 S2 O2).
+      assert (consistent_counts bs s1 = true -> forall w, In w (all_wires n) -> wcount s2 w = wcount s1 w) as F12
         by (intros C; apply forced_counts; auto).
-      assert (consistent bs s2 = true -> forall w, In w (all_wires n) -> wcount s1 w = wcount s2 w) as F21
+      assert (consistent_counts bs s2 = true -> forall w, In w (all_wires n) -> wcount s1 w = wcount s2 w) as F21
         by (intros C; apply forced_counts; auto).
       assert (forall sa sb, (forall w, In w (all_wires n) -> wcount sa w = wcount sb w) ->
               map (fun b => map (written bs sa) (axes_of_block b)) (seq 0 n) = map (fun b => map (written bs sb) (axes_of_block b)) (seq 0 n)
@@ -418,14 +487,44 @@ Section Indep2.
           unfold written. destruct (chopped bs x); [reflexivity|]. apply H. eapply vw_of_axis; [exact Vx | apply wire0_in].
         - intros w Hw. apply in_flat_map in Hw. destruct Hw as [x [Hx Hw]]. apply H.
           eapply vw_of_axis; [|exact Hw]. apply in_axes_of_block in Hx. apply in_all_axes. apply in_seq in Hb. lia. }
-      destruct (consistent bs s1) eqn:C1.
+      destruct (consistent_counts bs s1) eqn:C1.
       + specialize (F12 eq_refl). rewrite (consistent_ext s2 s1 F12), C1.
         destruct (OUT s1 s2 (fun w Hw => eq_sym (F12 w Hw))) as [E1 E2]. rewrite E1, E2. reflexivity.
-      + destruct (consistent bs s2) eqn:C2; [|reflexivity].
+      + destruct (consistent_counts bs s2) eqn:C2; [|reflexivity].
         specialize (F21 eq_refl). rewrite (consistent_ext s1 s2 F21), C2 in C1. discriminate.
     - exfalso. apply U2 in R2. apply U1 in R2. rewrite (run_unfold bs o1 n1 K1), P1 in R2. destruct (consistent bs s1); discriminate.
     - exfalso. apply U1 in R1. apply U2 in R1. rewrite (run_unfold bs o2 n2 K2), P2 in R1. destruct (consistent bs s2); discriminate.
     - congruence.
+  Qed.
+
+  (** for chops of any number of sections the COUNT part of the outcome is independent of the
+      iteration order: whenever both orders succeed they write the same counts, and a count conflict
+      is reported under every order *)
+  Theorem run_oracle_independent_counts o1 n1 o2 n2 cs1 ws1 cs2 ws2 :
+    oracle_ok bs o1 n1 = true -> oracle_ok bs o2 n2 = true ->
+    run bs o1 n1 = Ok cs1 ws1 -> run bs o2 n2 = Ok cs2 ws2 -> cs1 = cs2 /\ ws1 = ws2.
+  Proof using ND.
+    intros K1 K2 R1 R2.
+    destruct (oracle_ok_incl bs o1 n1 K1) as (A1 & B1 & B1').
+    destruct (oracle_ok_incl bs o2 n2 K2) as (A2 & B2 & B2').
+    rewrite (run_unfold bs o1 n1 K1) in R1. rewrite (run_unfold bs o2 n2 K2) in R2.
+    pose proof (final_inv bs o1 n1 A1 B1) as FI1. pose proof (final_inv bs o2 n2 A2 B2) as FI2.
+    destruct (propagate bs o1 n1 (fuel0 bs) (start bs o1) (seq 0 n)) as [s1 | |]; try discriminate.
+    destruct (propagate bs o2 n2 (fuel0 bs) (start bs o2) (seq 0 n)) as [s2 | |]; try discriminate.
+    destruct FI1 as [G1' O1]. destruct FI2 as [G2' O2].
+    destruct (consistent bs s1) eqn:C1; [|discriminate]. destruct (consistent bs s2) eqn:C2; [|discriminate].
+    assert (E1 : cs1 = map (fun b => map (written bs s1) (axes_of_block b)) (seq 0 n)) by congruence.
+    assert (E2 : ws1 = map (fun b => map (wcount s1) (flat_map wires_of_axis (axes_of_block b))) (seq 0 n)) by congruence.
+    assert (E3 : cs2 = map (fun b => map (written bs s2) (axes_of_block b)) (seq 0 n)) by congruence.
+    assert (E4 : ws2 = map (fun b => map (wcount s2) (flat_map wires_of_axis (axes_of_block b))) (seq 0 n)) by congruence.
+    subst cs1 ws1 cs2 ws2. clear R1 R2.
+    pose proof (forced_counts s1 s2 G1' (consistent_cc bs s1 C1) G2' O2) as F.
+    split; apply map_ext_in; intros b Hb; apply map_ext_in.
+    - intros x Hx. assert (In x (all_axes n)) as Vx.
+      { apply in_axes_of_block in Hx. apply in_all_axes. apply in_seq in Hb. lia. }
+      unfold written. destruct (chopped bs x); [reflexivity|]. symmetry. apply F. eapply vw_of_axis; [exact Vx | apply wire0_in].
+    - intros w Hw. apply in_flat_map in Hw. destruct Hw as [x [Hx Hw]]. symmetry. apply F.
+      eapply vw_of_axis; [|exact Hw]. apply in_axes_of_block in Hx. apply in_all_axes. apply in_seq in Hb. lia.
   Qed.
 End Indep2.
 
@@ -450,7 +549,8 @@ Section OkInv.
     intros K R. destruct (oracle_ok_incl bs o_coin o_nbrs K) as (A & B & _).
     rewrite (run_unfold bs o_coin o_nbrs K) in R. pose proof (final_inv bs o_coin o_nbrs A B) as FI.
     destruct (propagate bs o_coin o_nbrs (fuel0 bs) (start bs o_coin) (seq 0 n)) as [s | s undef |]; try discriminate.
-    destruct FI as [GS O]. destruct (consistent bs s) eqn:C; [|discriminate]. inversion R; subst. exists s.
+    destruct FI as [GS O]. destruct (consistent bs s) eqn:C0; [|discriminate]. inversion R; subst. exists s.
+    pose proof (consistent_cc bs s C0) as C.
     split; [reflexivity|]. split; [reflexivity|]. split; [|split].
     - intros x w Vx Hw. destruct (done_counts bs s GS C x Vx) as [X _]. apply X. exact Hw.
     - intros w c Vw Vc Cc. destruct (vw_axis bs w Vw) as [Vx Hk].
